@@ -399,8 +399,17 @@ def _spec_features(spec: dict) -> set:
             elif s["k"] == "call" and s.get("en") is not None:
                 out.add("conditional_call")
 
-    for it in spec["items"]:
+    for it, guard in sg.flat_items(spec):
         walk(it["block"], 0, it["k"] == "method")
+        if guard is not None:
+            out.add("body_defined_under_control_structure")
+    for it in spec["items"]:
+        if it["k"] in ("if", "switch", "fsm"):
+            out.add(f"callers_under_{it['k']}")
+    called = {x["m"] for it, _ in sg.flat_items(spec) for x in it["block"] if x["k"] == "call"}
+    for c in spec.get("connects", []):
+        if (c["name"] + ".write" in called) != (c["name"] + ".read" in called):
+            out.add("connect_end_without_caller")
     for c in spec.get("connects", []):
         out.add("connect_with_reverse_data" if c["rw"] else "connect")
     if spec.get("simul"):
